@@ -239,8 +239,14 @@ def call_chain(body, op, depth=0, maxdepth=40):
             cur = d.args[0]
             continue
         rv = d["rv"]
-        if rv["k"] in ("use", "cast"):
+        fs = [e for e in p["p"] if e != "*"]
+        if rv["k"] == "agg" and rv.get("agg") == "tuple" and fs and isinstance(fs[0], dict) and "f" in fs[0] and fs[0]["f"] < len(rv["ops"]):
+            cur = rv["ops"][fs[0]["f"]]   # `t.k` where t = (a, b, ..): follow the k-th component
+        elif rv["k"] in ("use", "cast"):
             cur = rv["op"]
+            q = op_place(cur)
+            if fs and q is not None and not q["p"]:
+                cur = {"copy": {"l": q["l"], "p": p["p"]}}   # keep the projection across a plain copy
         elif rv["k"] in ("ref", "rawptr"):
             cur = {"copy": rv["place"]}
             if body.kind.startswith(("closure", "coroutine")) and rv["place"]["l"] == 1:
